@@ -81,13 +81,7 @@ def step (st : St) (line : String) : St × String :=
       | some none => if out = "err" then (st, "ok") else (st, "DIS err")
       | some (some e) =>
         let r : Option (List Fabric × Nat) :=
-          if fab = 0 ∨ fab > 255 then none else
-          match fabricsGet st.fabrics fab with
-          | none => none
-          | some f =>
-            match f.aclAdd e with
-            | none => none
-            | some (f', i) => some (fabricsUpdate st.fabrics fab (fun _ => f'), i)
+          if fab = 0 ∨ fab > 255 then none else fabricsAclAdd st.fabrics fab e
         match r with
         | some (fs, i) => if out = toString i then ({ fabrics := fs }, "ok") else ({ fabrics := fs }, s!"DIS {i}")
         | none => if out = "err" then (st, "ok") else (st, "DIS err")
@@ -96,13 +90,8 @@ def step (st : St) (line : String) : St × String :=
     match fab.toNat?, gid.toNat?, ep.toNat? with
     | some fab, some gid, some ep =>
       let r : Option (List Fabric) :=
-        if fab = 0 ∨ fab > 255 ∨ gid > 65535 ∨ ep > 65535 then none else
-        match fabricsGet st.fabrics fab with
-        | none => none
-        | some f =>
-          match groupsAdd f.groups ep gid with
-          | none => none
-          | some gs => some (fabricsUpdate st.fabrics fab (fun f => { f with groups := gs }))
+        if fab = 0 ∨ fab > 255 ∨ gid > 65535 ∨ ep > 65535 then none
+        else fabricsGroupAdd st.fabrics fab ep gid
       match r with
       | some fs => if out = "ok" then ({ fabrics := fs }, "ok") else ({ fabrics := fs }, "DIS ok")
       | none => if out = "err" then (st, "ok") else (st, "DIS err")
@@ -111,13 +100,7 @@ def step (st : St) (line : String) : St × String :=
     match fab.toNat?, gid.toNat? with
     | some fab, some gid =>
       let r : Option (List Fabric × Bool) :=
-        if fab = 0 ∨ fab > 255 ∨ gid > 65535 then none else
-        match fabricsGet st.fabrics fab with
-        | none => none
-        | some f =>
-          match groupsSetHasAux f.groups gid (v = "1") with
-          | (gs, some changed) => some (fabricsUpdate st.fabrics fab (fun f => { f with groups := gs }), changed)
-          | (_, none) => none
+        if fab = 0 ∨ fab > 255 ∨ gid > 65535 then none else fabricsSetHasAux st.fabrics fab gid (v = "1")
       match r with
       | some (fs, ch) =>
         let m := if ch then "changed" else "same"
